@@ -30,6 +30,21 @@ pub mod controls {
         }
     }
 
+    // R20.2 control (hash-order): HashMap iteration collected into a Vec
+    pub fn hash_order_leak(m: std::collections::HashMap<usize, usize>) -> Vec<usize> {
+        m.into_iter().map(|(k, _)| k).collect()
+    }
+    // R20.2 control (ptr-order): ordering decided by an allocation address
+    pub fn addr_order(a: &std::rc::Rc<u8>, b: &std::rc::Rc<u8>) -> std::cmp::Ordering {
+        let x = std::rc::Rc::as_ptr(a) as usize;
+        let y = std::rc::Rc::as_ptr(b) as usize;
+        x.cmp(&y)
+    }
+    // R20.3 control: clock
+    pub fn clock() -> u64 {
+        std::time::Instant::now().elapsed().as_secs()
+    }
+
     pub struct CRect {
         min: Coord<f64>,
         max: Coord<f64>,
